@@ -20,7 +20,10 @@ RULE = ("A case is a history over one fake node reached through the real Session
         "scripted retries/never/undecodable/protocol error/negative length/close/reset), advance the clock (orphaning, "
         "borrow timeouts, trash interval, reconnection), kill a connection, refuse the next connects, change the "
         "connect delay, renew the pool (Session.add_or_renew_pool shuts the previous one down), Session.shutdown in "
-        "mid-history, borrow from a pool that is shut down.  The history ends with every held request answered, "
+        "mid-history, borrow from a pool that is shut down; the 'v3trash' part starts with requests that time out past the "
+        "orphan threshold next to live/never-answered ones (replacement with the old connection set aside), the "
+        "'v1v2trash' part with a burst that grows a HostConnectionPool beyond its core size followed by the 10 s trash "
+        "interval.  The history ends with every held request answered, "
         "Session/Cluster shutdown and enough virtual time for every pending connect to finish.  Non-trivial: a pool "
         "opened a connection after its first ones (replacement / growth) or set one aside (trash) before it was shut "
         "down, or a borrow was attempted on a shut-down pool.  Distinct by case digest.")
@@ -190,12 +193,32 @@ def s_trash():
         "events": ev, "delay": st.sampled_from([0.0, 0.0, 0.2])})
 
 
+def s_v3trash():
+    """HostConnection replacement with live requests on the old connection: some requests time out (orphans past
+    the threshold), others stay live or are never answered, the next borrow replaces the connection and the old
+    one goes to the trash; then anything, including shutdown with the trash still populated"""
+    tail = st.one_of(
+        st.tuples(st.just("send"), st.sampled_from([0, 0, 3, 2])),
+        st.tuples(st.just("answer"), st.integers(0, 7), st.sampled_from(["rows", "rows", "void", "drop", "drop", "overloaded"])),
+        st.tuples(st.just("advance"), st.sampled_from([0.35, 0.35, 1.1, 6.0])),
+        st.tuples(st.just("session_shutdown")),
+        st.tuples(st.just("renew")),
+        st.tuples(st.just("kill"), st.integers(0, 2), st.sampled_from(["close", "reset"])),
+        st.tuples(st.just("delay"), st.sampled_from([0.0, 0.2, 0.6])),
+        st.tuples(st.just("borrow_dead"), st.integers(0, 2)),
+    )
+    ev = st.tuples(st.integers(1, 3), st.integers(1, 2), st.lists(tail, min_size=1, max_size=14)).map(
+        lambda t: [["send", 0]] * t[0] + [["send", 3]] * t[1] + [["advance", 0.35], ["send", 3]] + [list(e) for e in t[2]])
+    return SP.s_case(st, "c12", "blocking", [3, 4, 4, 5], mifs=(5, 8), thrs=(1, 1, 2), extra={"events": ev})
+
+
 def parts(tier):
     return [
         hyp_part("v3plus", lambda: s_case("blocking", [3, 4, 4, 5]), interpret, tier, quick=110, thorough=1500,
                  quick_shards=4, thorough_shards=8),
         hyp_part("v1v2", lambda: s_case("blocking", [1, 2, 2]), interpret, tier, quick=90, thorough=1200,
                  quick_shards=3, thorough_shards=5),
+        hyp_part("v3trash", s_v3trash, interpret, tier, quick=80, thorough=800, quick_shards=1, thorough_shards=2),
         hyp_part("v1v2trash", s_trash, interpret, tier, quick=80, thorough=800, quick_shards=1, thorough_shards=2),
         hyp_part("locks", lambda: s_case("locks", [2, 3, 4, 4, 5], mifs=MIFS_LOCKS), interpret, tier, quick=50, thorough=700,
                  quick_shards=1, thorough_shards=3),
